@@ -36,7 +36,7 @@ man = dict(
     engines=[dict(name="contracts", path="/verif/check", serves_properties=claimed,
                   kind_free_text="contract-based deductive verification: CBMC 6.11 code contracts (dfcc) on code mechanically extracted from /repo each run; real-arithmetic WP generator + z3/cvc5 for hand-expanded algebra")],
     checks=checks,
-    notes="Exit codes: 0 all obligations discharged; 1 VIOLATION; 2 UNDECIDED (extraction/solver/tool trouble, never reported as a violation). known_findings.json lists genuine defects (all four fixed by 'fix:' commits in /repo).",
+    notes="Exit codes: 0 all obligations discharged; 1 VIOLATION; 2 UNDECIDED (extraction/solver/tool trouble, never reported as a violation). known_findings.json lists the genuine defects found (status fixed = repaired by a 'fix:' commit in /repo and no longer suppressed; status open = reported as KNOWN-FINDING lines).",
     not_applicable=[dict(property_id=p, reason=na[p]) for p in props if p not in claimed])
 json.dump(man, open(os.path.join(V, "MANIFEST.json"), "w"), indent=1)
 print("MANIFEST: %d checks, %d not applicable" % (len(checks), len(man["not_applicable"])))
